@@ -1,4 +1,5 @@
-# executed inside real gdb's Python by the command run_gdb() builds: dumps the sys.argv it was given
+# executed inside real gdb's Python by the command run_gdb() builds: dumps the sys.argv it was given (as code points, so
+# that lone surrogates survive the trip back to the harness)
 import json, os, sys
 with open(os.environ['VERIF_PROBE_OUT'], 'w') as f:
-    json.dump(list(sys.argv), f)
+    json.dump([[ord(c) for c in a] for a in sys.argv], f)
